@@ -220,6 +220,11 @@ def ref_ok(prop, r):
         return "%s:%s:%s" % (m.group(1), m.group(2), m.group(3)) in qh[4:-1].split(",")
     if prop == "C16":
         ms = [e for e in evs if re.match(r"M\d+[<>]", e)]
+        hev = find(evs, "H:")
+        if not route.startswith("op(") and hev:
+            # the implementation did dispatch to an operation (whatever the model thinks of the routing,
+            # which is C03's matter): "whenever a request is dispatched to an operation" applies to it
+            route = "op(" + hev[0][2:] + ")"
         if not route.startswith("op("):
             return not ms
         n = cfg["mws"]
